@@ -210,7 +210,9 @@ Proof.
   destruct (memory_gas_cost (f_mem f) sz') as [[fee m']|] eqn:Em; [|fin].
   cbv zeta.
   match goal with |- context [charge ga (fee + ?t + ?n)] => set (tv := t); set (newacct := n) end.
-  destruct (charge ga (fee + tv + newacct)) as [avail|] eqn:Ec2; [|fin].
+  destruct (charge ga (fee + tv + newacct)) as [avail0|] eqn:Ec2; [|fin].
+  destruct (delegation_access _ w1 _) as [dcost w1'] eqn:Ed.
+  destruct (charge avail0 dcost) as [avail|] eqn:Ec2b; [|fin].
   destruct (charge avail (call_gas_cap avail greq)) as [g2|] eqn:Ec3; [|fin].
   apply round_mem_size_spec in Er. destruct Er as (Hle & Hmod & _).
   pose proof (mgc_spec _ _ _ _ Hwf Hmod Em) as (Hw1 & Hl1 & Hs1 & _).
@@ -220,10 +222,10 @@ Proof.
   2:{ exfalso. revert Erd. eapply mem_read_ok; [exact Hy|lia]. }
   set (stip := if negb (value =? 0) then call_stipend else 0).
   pose proof (evm_call_ok rec (c_env c) k (c_addr c) (c_caller c) (c_value c) (c_static c)
-                (c_depth c) w1 (addr_of_word a) value args (call_gas_cap avail greq + stip) Hrec) as Hcall.
+                (c_depth c) w1' (addr_of_word a) value args (call_gas_cap avail greq + stip) Hrec) as Hcall.
   cbv zeta in Hcall. destruct Hcall as [Hcg Hce].
   set (r := evm_call _ _ _ _ _ _ _ _ _ _ _ _ _) in *.
-  apply charge_some in Ec1, Ec2, Ec3.
+  apply charge_some in Ec1, Ec2, Ec2b, Ec3.
   assert (Hstip : stip <= tv).
   { subst stip tv. destruct (negb _); unfold call_stipend, call_value_gas; lia. }
   assert (Hmw : exists m2, mem_write m1 ro rsz (cr_ret r) = Some m2 /\ mem_wf m2 /\ m_last m2 = m_last m1).
